@@ -152,8 +152,8 @@ def run(prop, tier, seed, unit_results):
     want = replay_available() and prop in replay_props() and os.environ.get('VERIF_REPLAY') != '0'
     if tier == 'quick':
         seed = 1
-    # properties whose statement includes another property's observable (C02: "visible to that stage" is C03's visibility)
-    also = {'C02': ['C03']}.get(prop, [])
+    # properties whose statement includes another property's observable (C02: "visible to that stage" is C03's visibility; C06: "nested structs refer to the emitted struct of the same name" needs C08's emission)
+    also = {'C02': ['C03'], 'C06': ['C08']}.get(prop, [])
     if want:
         rr = run_replay(prop, tier, seed)
         for other in also:
